@@ -45,6 +45,12 @@ func verifQuoted(t int, l string) string {
 		return "PASTE \"@" + l + "\""
 	case tRequestAny:
 		return "Request \"any\""
+	case tURLParam:
+		return "URL \"/" + l + "/{id}\""
+	case tRespRef:
+		return "200 \"@" + l + "\""
+	case tRespArr:
+		return "200 \"[@" + l + "]\""
 	case tResp200:
 		return "200 \"any\" // ok"
 	}
@@ -58,7 +64,16 @@ func verifQuoted(t int, l string) string {
 // children that nest there anyway - changes neither the verdict nor the catalog.
 func VerifH_SurfaceSyntax() {
 	k := verifrt.Bound("K")
-	_, lines := verifDocLines(verifMenuSurface, k, true)
+	menu := verifMenuSurface
+	if verifrt.Bound("MENU") == 1 {
+		// schema-bearing lines (real schema library): bodies, path parameters, references to types
+		menu = []int{tURLParam, tGet, tGetPath, tPathDir, tRespRef, tRespArr, tRequestObj, tTypeObj, tEnum, tTypeNested}
+	}
+	if verifrt.Bound("MENU") == 2 {
+		// responses referring to types in the three spellings, followed by further lines
+		menu = []int{tGetPath, tRespArr, tRespRef, tTypeObj}
+	}
+	_, lines := verifDocLines(menu, k, true)
 	if !refResolveLines(lines) {
 		verifrt.Stop()
 	}
